@@ -67,9 +67,18 @@ def main():
         result["demo_patched_rc"] = rc1
         result["demo_patched_tail"] = out1[-600:]
         if not no_suite:
-            rcs, outs, dt = sh("/venv/bin/python -m pytest -q -p no:cacheprovider --timeout=900 -x -q 2>&1 | tail -5", cwd=wt, env=env)
-            result["suite_tail"] = outs.strip().splitlines()[-1:] if outs.strip() else []
-            result["suite_ok"] = bool(re.search(r"\b(\d+) passed", outs)) and "failed" not in outs and "error" not in outs.lower()
+            rcs, outs, dt = sh("/venv/bin/python -m pytest -q -p no:cacheprovider --timeout=900 -ra 2>&1 | tail -40", cwd=wt, env=env)
+            summary = [l for l in outs.splitlines() if re.search(r"\d+ (passed|failed)", l)]
+            failed = re.findall(r"^(?:FAILED|ERROR) (\S+)", outs, flags=re.M)
+            result["suite_tail"] = summary[-1:]
+            ok = bool(summary) and not failed and "passed" in summary[-1] and "failed" not in summary[-1]
+            if failed and len(failed) <= 5:
+                # timing-sensitive tests can fail under machine load: re-run them alone
+                rc2, out2, _ = sh("/venv/bin/python -m pytest -q -p no:cacheprovider --timeout=900 " + " ".join(failed) + " 2>&1 | tail -5", cwd=wt, env=env)
+                s2 = [l for l in out2.splitlines() if re.search(r"\d+ (passed|failed)", l)]
+                result["suite_rerun_of_failures"] = {"tests": failed, "result": s2[-1:]}
+                ok = bool(s2) and "failed" not in s2[-1] and "passed" in s2[-1]
+            result["suite_ok"] = ok
             result["suite_wall_s"] = round(dt)
         result["checks"] = {}
         for c in checks:
